@@ -288,6 +288,6 @@ var random = ev.NewCheck("C06", "random-streams",
 	"rapid: streams of up to ~4000 bytes built from segments (uniform random bytes over all 256 values, status-heavy noise, sysex of buffer size -3..+70 terminated or not and with real-time inside, running-status runs, undefined/unpaired bytes, well-formed messages), optionally followed by a well-formed suffix of 1..6 messages starting with an explicit non-real-time status; buffer sizes 3,4,8,64,1024; chunked as one call / byte-wise / random pieces; both observation points; oracle = reference receiver (F9/FD don't-care), well-formedness, suffix decoded exactly; non-trivial as above; distinct by stream+chunking hash",
 	genRandom, run)
 
-func TestPropRandomStreams(t *testing.T) { random.Rapid(t, 1500, 10000) }
+func TestPropRandomStreams(t *testing.T) { random.Rapid(t, 3000, 10000) }
 
 func TestReplay(t *testing.T) { ev.ReplayAll(t) }
